@@ -382,12 +382,14 @@ var c04Templates = []diffTmpl{
 	{"local o = setmetatable({}, {__metatable = 'locked'}); emit(getmetatable(o), (pcall(setmetatable, o, {})))", "num"},
 	{"local ok = pcall(function() return {} + 1 end); local ok2 = pcall(function() return {} < {} end); local ok3 = pcall(function() return {} .. 'a' end); emit(ok, ok2, ok3)", "num"},
 	{"local a = setmetatable({}, {__index = function(t, k) return x end}); local b = setmetatable({}, {__index = a}); local c = setmetatable({}, {__index = b}); emit(c.k, b.k, rawget(c, 'k'))", "num"},
+	{"local store = {}; local mid = setmetatable({}, {__newindex = function(t, k, v) rawset(store, k, v); rawset(t, 'seen', k) end}); local proxy = setmetatable({}, {__newindex = mid}); proxy[1] = x; local key = 'a'; proxy[key] = y; proxy.b = z; emit(store[1], store.a, store.b, rawget(proxy, 1), rawget(mid, 'seen'))", "num"},
+	{"local log = {}; local base = setmetatable({}, {__index = function(t, k) log[#log + 1] = k; return x end}); local mid = setmetatable({}, {__index = base}); local top = setmetatable({}, {__index = mid}); local key = 'q'; emit(top[1], top[key], top.r, #log, log[1], log[2], log[3])", "num"},
 	{"local o = setmetatable({}, {__mul = function(a, b) return type(a), type(b) end, __div = function(a, b) return x, y end}); emit(o * 2, 2 * o, o / o)", "num"},
 }
 
 // C04.tmpl — metamethod dispatch, whole pipeline against R-lua (manual section 2.8).
 //
-//verif:harness prop=C04 tier=quick bounds="16 metamethod templates: arithmetic/concat left-then-right, __index/__newindex through functions and tables (chains <= 3), __eq identity rule, __lt/__le with fallback, __unm, __call in statement/tail/iterator position, __metatable, missing handlers; inputs symbolic"
+//verif:harness prop=C04 tier=quick bounds="18 metamethod templates: arithmetic/concat left-then-right, __index/__newindex through functions and tables (chains <= 3), __eq identity rule, __lt/__le with fallback, __unm, __call in statement/tail/iterator position, __metatable, missing handlers; inputs symbolic"
 func H_C04_tmpl() {
 	t := c04Templates[VChoice(len(c04Templates))]
 	diffRun(t.src, t.src, c01Inputs(t.kind), Options{})
